@@ -201,8 +201,14 @@ def run(case):
         if not fails and case["ecs"]:
             st = ec_tables(src)
             ot = ec_tables(out)
+            def _ptypes(c):
+                w = c.extra_coords.wcs
+                w = w.low_level_wcs if hasattr(w, "low_level_wcs") else w
+                return dict(zip(w.world_axis_names, map(str, w.world_axis_physical_types)))
             if [x[1] for x in st] != [x[1] for x in ot]:
                 fails.append(f"extra coords names changed by rebin: {[x[1] for x in st]} -> {[x[1] for x in ot]}")
+            elif _ptypes(src) != _ptypes(out):
+                fails.append(f"extra coords physical types changed by rebin: {_ptypes(src)} -> {_ptypes(out)}")
             else:
                 for (ax, names, sa), (ax2, _, oa) in zip(st, ot):
                     if ax != ax2:
